@@ -36,7 +36,7 @@ const char TypeErrorMsg[] =
 typedef numpy::aligned_array<double> integral_image_type;
 
 template <typename T>
-double sum_rect(numpy::aligned_array<T> integral, int y0, int x0, int y1, int x1) {
+double sum_rect(const numpy::aligned_array<T>& integral, int y0, int x0, int y1, int x1) {
     y0 = std::max<int>(y0-1, 0);
     x0 = std::max<int>(x0-1, 0);
     y1 = std::min<int>(y1-1, integral.dim(0) - 1);
@@ -53,7 +53,7 @@ double sum_rect(numpy::aligned_array<T> integral, int y0, int x0, int y1, int x1
 }
 
 template <typename T>
-double csum_rect(numpy::aligned_array<T> integral, int y, int x, const int dy, const int dx, int h, int w) {
+double csum_rect(const numpy::aligned_array<T>& integral, int y, int x, const int dy, const int dx, int h, int w) {
     int y0 = y + dy - h/2;
     int x0 = x + dx - w/2;
     int y1 = y0 + h;
